@@ -1,8 +1,15 @@
 """C16 — instruments: settings follow parameters, calibration conserves the spectrum."""
 import ast
 import z3
-from .common import (lemma, structural, as_bool, rebuilt_after_writes, self_attrs_read, self_attrs_written, class_setters, logged_self,
+from .common import (lemma, structural as _structural, as_bool, rebuilt_after_writes, self_attrs_read, self_attrs_written, class_setters, logged_self,
                      method_reads, setter_contracts, call_cases)
+
+
+def structural(name, prop, ok, detail=''):
+    """pins on settings builders / 'ends-with' coherence of the array-building mutators are exercised by the bounded histories stand-in"""
+    st = 'settings' if name.startswith(('settings/', 'coherence/')) else None
+    return _structural(name, prop, ok, detail, standin=st)
+
 
 PROP = 'C16'
 LEVEL = 'proof'
@@ -238,3 +245,99 @@ print(json.dumps({"create_pipelines_error": err}))
     out = run_native(ctx, code)
     return {'confirmed': bool(out and out.get('create_pipelines_error')), 'input': 'CzernyTurnerSpectrometer(1, 2e-3, 1e9, 2e4, 10, ((600, 512),)).create_pipelines()',
             'observed': out, 'expected': 'a list with one pipeline'}
+
+
+def bounded_instrument_histories(ctx):
+    """Bounded stand-in (NOT a proof): random histories of parameter changes interleaved with reads on Spectrometer, CzernyTurnerSpectrometer
+    and Polychromator; after every step the settings (range, bins, pipeline classes / keywords, pixel arrays) are compared with a freshly
+    constructed instrument with the same final parameters; for the plain Spectrometer also with an independent numpy formula."""
+    from replaylib.native import run_native
+    n = 25 if ctx['tier'] == 'quick' else 300
+    code = '''
+import random, numpy as np
+from cherab.tools.spectroscopy import Spectrometer, CzernyTurnerSpectrometer, Polychromator, TrapezoidalFilter
+rnd = random.Random(%d)
+bad = []; cases = 0
+def kw_view(inst):
+    out = []
+    for d in inst.pipeline_kwargs:
+        out.append(tuple(sorted((k, (getattr(v, "name", None), getattr(v, "central_wavelength", None)) if hasattr(v, "window") else (v if isinstance(v, (str, int, float)) else type(v).__name__)) for k, v in d.items())))
+    return out
+READERS = {"min": lambda i: i.min_wavelength, "max": lambda i: i.max_wavelength, "bins": lambda i: i.spectral_bins,
+           "classes": lambda i: [c.__name__ for c in i.pipeline_classes], "kwargs": kw_view}
+def view(inst, order=None):
+    # the order in which the lazily built settings are read matters for stale-cache defects: a random order per comparison
+    order = order or rnd.sample(sorted(READERS), len(READERS))
+    v = {k: READERS[k](inst) for k in order}
+    if hasattr(inst, "wavelength_to_pixel"):
+        v["w2p"] = [np.asarray(a).tolist() for a in inst.wavelength_to_pixel]
+    return v
+def same(a, b):
+    if a.keys() != b.keys(): return False
+    for k in a:
+        if k in ("min", "max"):
+            if not abs(a[k] - b[k]) <= 1e-12 * max(1.0, abs(b[k])): return False
+        elif k == "w2p":
+            if len(a[k]) != len(b[k]) or any(len(x) != len(y) or not np.allclose(x, y, rtol=1e-12, atol=0) for x, y in zip(a[k], b[k])): return False
+        elif a[k] != b[k]: return False
+    return True
+def edges():
+    m = rnd.randint(1, 3); out = []
+    for _ in range(m):
+        start = rnd.uniform(300, 700); widths = [rnd.uniform(0.02, 0.5) for _ in range(rnd.randint(1, 12))]
+        out.append(np.cumsum([start] + widths))
+    return tuple(out)
+def filt():
+    return tuple(TrapezoidalFilter(rnd.uniform(400, 700), window=rnd.uniform(1.0, 6.0), name="f%%d" %% rnd.randint(0, 999)) for _ in range(rnd.randint(1, 3)))
+for trial in range(%d):
+    # plain spectrometer
+    p = {"wavelength_to_pixel": edges(), "min_bins_per_pixel": rnd.randint(1, 4), "name": "s"}
+    inst = Spectrometer(p["wavelength_to_pixel"], min_bins_per_pixel=p["min_bins_per_pixel"], name="s")
+    for step in range(rnd.randint(1, 5)):
+        if rnd.random() < 0.6: view(inst)
+        key = rnd.choice(["wavelength_to_pixel", "min_bins_per_pixel", "name"])
+        p[key] = edges() if key == "wavelength_to_pixel" else (rnd.randint(1, 4) if key == "min_bins_per_pixel" else "s%%d" %% step)
+        setattr(inst, key, p[key]); cases += 1
+        fresh = Spectrometer(p["wavelength_to_pixel"], min_bins_per_pixel=p["min_bins_per_pixel"], name=p["name"])
+        w = p["wavelength_to_pixel"]
+        lo, hi = min(a[0] for a in w), max(a[-1] for a in w); stp = min(np.diff(a).min() for a in w) / p["min_bins_per_pixel"]
+        if not same(view(inst), view(fresh)) or inst.min_wavelength != lo or inst.max_wavelength != hi or inst.spectral_bins != int(np.ceil((hi - lo) / stp)):
+            bad.append({"instrument": "Spectrometer", "trial": trial, "after_setting": key, "bins": inst.spectral_bins, "fresh_bins": fresh.spectral_bins, "formula_bins": int(np.ceil((hi - lo) / stp))}); break
+    # Czerny-Turner
+    q = {"diffraction_order": 1, "grating": 2.0e-3, "focal_length": 1.0e9, "pixel_spacing": 2.0e4, "diffraction_angle": 10.0, "accommodated_spectra": ((600.0, 64),), "min_bins_per_pixel": 2, "name": "ct"}
+    mk = lambda q: CzernyTurnerSpectrometer(q["diffraction_order"], q["grating"], q["focal_length"], q["pixel_spacing"], q["diffraction_angle"], q["accommodated_spectra"],
+                                            min_bins_per_pixel=q["min_bins_per_pixel"], name=q["name"])
+    inst = mk(q)
+    for step in range(rnd.randint(1, 5)):
+        if rnd.random() < 0.7: view(inst)
+        key = rnd.choice(["grating", "focal_length", "pixel_spacing", "diffraction_angle", "accommodated_spectra", "min_bins_per_pixel", "diffraction_order"])
+        q[key] = {"grating": rnd.choice([1.2e-3, 2.4e-3, 1.8e-3]), "focal_length": rnd.choice([0.5e9, 1.0e9, 2.0e9]), "pixel_spacing": rnd.choice([1.0e4, 2.0e4, 4.0e4]),
+                  "diffraction_angle": rnd.choice([5.0, 10.0, 20.0]), "accommodated_spectra": rnd.choice([((600.0, 64),), ((500.0, 32), (650.0, 48)), ((450.0, 16),)]),
+                  "min_bins_per_pixel": rnd.randint(1, 3), "diffraction_order": rnd.choice([1, 2])}[key]
+        try:
+            setattr(inst, key, q[key]); cases += 1
+            if not same(view(inst), view(mk(q))):
+                bad.append({"instrument": "CzernyTurnerSpectrometer", "trial": trial, "after_setting": key, "bins": inst.spectral_bins, "fresh_bins": mk(q).spectral_bins}); break
+        except ValueError:
+            break
+    # polychromator
+    r = {"filters": filt(), "min_bins_per_window": rnd.randint(2, 12), "name": "po"}
+    inst = Polychromator(r["filters"], min_bins_per_window=r["min_bins_per_window"], name="po")
+    for step in range(rnd.randint(1, 5)):
+        for reader in rnd.sample(["pipeline_kwargs", "pipeline_classes", "spectral_bins", "min_wavelength"], rnd.randint(0, 2)): getattr(inst, reader)
+        key = rnd.choice(["filters", "min_bins_per_window", "name"])
+        r[key] = filt() if key == "filters" else (rnd.randint(2, 12) if key == "min_bins_per_window" else "po%%d" %% step)
+        setattr(inst, key, r[key]); cases += 1
+        first = "random order of reads"
+        fresh = Polychromator(r["filters"], min_bins_per_window=r["min_bins_per_window"], name=r["name"])
+        if not same(view(inst), view(fresh)):
+            bad.append({"instrument": "Polychromator", "trial": trial, "after_setting": key, "read_first": first, "kwargs": str(kw_view(inst))[:120], "fresh_kwargs": str(kw_view(fresh))[:120]}); break
+print(json.dumps({"cases": cases, "bad": bad[:6]}))
+''' % (ctx['seed'] + 16, n)
+    out = run_native(ctx, code, timeout=900)
+    return {'name': 'instrument settings after random histories = freshly constructed instrument (BOUNDED stand-in, not counted as proved)',
+            'ok': bool(out) and out.get('bad') == [], 'detail': out, 'covers': ['settings'],
+            'bound': '%d random histories of 1..5 setter calls per instrument class, seed %d' % (n, ctx['seed'] + 16)}
+
+
+BOUNDED = [bounded_instrument_histories]
